@@ -286,6 +286,35 @@ def _assert_unreachable(b, e):
             return f"assertion cannot fail: `{tstr(cr[1])[:50]} {cr[0]} {tstr(cr[2])[:50]}` contradicts the other facts on the way to the panic"
     root = b.prog.by_id.get(b.root, b) if b.kind == "Closure" else b
     f = b.prog.fns.get(root.id)
+    if b is not root and b.kind == "Closure":
+        # the default arm of a `match` on the closure's own scalar argument (`_ => unreachable!()`): unreachable when every call of the
+        # closure in its defining function passes one of the constants the listed arms cover
+        excluded = {}
+        for r in b.facts_at(e["pos"]):
+            if r[0] == 'cmp' and r[1] == 'Ne':
+                x, y = deep_strip(r[2]), deep_strip(r[3])
+                if x[0] == 'param' and y[0] == 'const':
+                    excluded.setdefault(x[1], set()).add(y[1])
+        for prm, consts in excluded.items():
+            if prm < 2 or len(consts) < 2:
+                continue
+            passed = []
+            okc = True
+            for pb in b.prog.bodies:
+                for c in pb.calls():
+                    if c.t.get("resolved") == b.id or (c.target == b.id):
+                        args = c.args()
+                        # direct closure call: (closure, (a1, a2, ..)) — the argument tuple is the second operand
+                        tup = deep_strip(args[1]) if len(args) >= 2 else None
+                        v = None
+                        if tup is not None and tup[0] == 'agg' and len(tup[3]) >= prm - 1:
+                            v = deep_strip(tup[3][prm - 2])
+                        if v is None or v[0] != 'const':
+                            okc = False
+                        else:
+                            passed.append(v[1])
+            if okc and passed and set(passed) <= consts:
+                return f"unreachable: every call of this closure passes one of the constants {sorted(set(passed))}, all covered by the listed arms"
     if b is not root or f is None or f.get("vis") == "pub":
         return None
 
@@ -362,7 +391,7 @@ def _auto(b, e):
         if Bounds(facts).le(c, a):
             return f"`{tstr(deep_strip(c))[:60]}` <= `{tstr(deep_strip(a))[:60]}` by interval / ordering closure over the dominating facts"
         return None
-    if k == "diverge" and re.search(r"assert|panic_2021", e.get("sig", "") + e.get("mac", "")) and "_facts" not in e:
+    if k == "diverge" and re.search(r"assert|panic_2021|unreachable_2021", e.get("sig", "") + e.get("mac", "")) and "_facts" not in e:
         return _assert_unreachable(b, e)
     if k == "unwrap" and len(e["ops"]) >= 1:
         # unwrap()/expect() of one of the crate's own checked helpers whose every failing return is excluded at this point
